@@ -25,6 +25,7 @@ import ScalesModel.Adapter.MuxCodec
 import ScalesModel.Adapter.ThriftCodec
 import ScalesModel.Adapter.Serial
 import ScalesModel.Adapter.SerialC02
+import ScalesModel.Adapter.SerialC12
 import ScalesModel.Adapter.MuxT
 import ScalesModel.Adapter.Watermark
 import ScalesModel.Adapter.ServerSet
@@ -51,6 +52,7 @@ def components : List Comp := [
   ⟨"thriftcodec", Scales.ThriftCodec.comp.run⟩,
   ⟨"serial", Scales.Serial.comp.run⟩,
   ⟨"serial2", Scales.SerialC02.comp.run⟩,
+  ⟨"serial12", Scales.SerialC12.comp.run⟩,
   ⟨"muxt", Scales.MuxT.comp.run⟩,
   ⟨"watermark", Scales.Watermark.comp.run⟩,
   ⟨"serverset", Scales.ServerSet.comp.run⟩
